@@ -140,6 +140,17 @@ def c11_pin_and_tie_not_fixed_point(v):
 
 
 @predicate
+def c11_tie_chain_across_collapses(v):
+    """every violated group is pin-free and its ties were applied by at least two different Collapse() calls
+    (ties applied by ONE collapse must hold: impose_as ties the connected group as a whole)"""
+    r = v['record']
+    if not r.get('clause', '').startswith(('solver:every point evaluated after a collapse', 'solver:the final solution satisfies')):
+        return False
+    groups = [g for f in (r.get('first') or []) for g in f.get('groups', [])]
+    return bool(groups) and all(len(g.get('group', [])) >= 3 and not g.get('pinned') and len(g.get('tie_collapse_calls') or []) >= 2 for g in groups)
+
+
+@predicate
 def c11_collapse_at_final_stop(v):
     r = v['record']
     return (r.get('clause', '').startswith('solver:the final solution satisfies') and r.get('calls_after_last_collapse') == 0
@@ -209,11 +220,9 @@ def c12_contradictory_strict_pair(v):
     w = r.get('witnesses') or []
     if not w or not all(x.get('input_holds') is False for x in w):
         return False
-    if r.get('hostile') == 'contradiction' or r.get('mirrored_pair') == 'contradictory_strict':
-        return r.get('merged_to_not_equal') is True              # A<c with A>c  ->  A != c
-    if r.get('mirrored_pair') == 'contradictory_complement':
-        return r.get('merged_to_not_equal') is False             # A>c with A<=c ->  both lines dropped
-    return False
+    # the input holds a pair of lines that bound one (scaled) expression from incompatible sides BY CONSTRUCTION
+    # (A<c with A>c -> 'A != c';  A>c with A<=c -> both dropped; with a third line on the same expression either may show)
+    return r.get('hostile') == 'contradiction' or r.get('mirrored_pair') in ('contradictory_strict', 'contradictory_complement')
 
 
 @predicate
@@ -239,3 +248,21 @@ def c12_pinch_pair_equality_dropped(v):
     return (r.get('clause', '').startswith('same:') and r.get('mirrored_pair') == 'pinch' and bool(w)
             and all(x.get('input_holds') is False for x in w)
             and all(n <= (r.get('equalities_in') or 0) for n in (r.get('equalities_out') or [])))
+
+
+@predicate
+def c12_vacuous_false_equality_dropped(v):
+    """the input has an equality whose variables cancel to a false constant relation, it holds nowhere, and the output has lost an equality"""
+    r = v['record']
+    w = r.get('witnesses') or []
+    return (r.get('clause', '').startswith('same:') and (r.get('vacuous_false_equalities') or 0) >= 1 and bool(w)
+            and all(x.get('input_holds') is False for x in w)
+            and all(n < (r.get('equalities_in') or 0) for n in (r.get('equalities_out') or [])))
+
+
+@predicate
+def c12_solve_rounding_residue_pivot(v):
+    """solve divided by a rounding residue: the solved form carries a coefficient >= 1e10 although every input number is small"""
+    r = v['record']
+    return (r.get('clause', '').startswith('same:') and r.get('solve') is True and (r.get('max_number_in_result') or 0) >= 1e10
+            and (r.get('max_number_in_input') or 1e99) <= 1e3)
